@@ -154,6 +154,13 @@ pub fn run(ctx: &Ctx, rep: &mut Report) {
                             break;
                         }
                     }
+                    // sometimes a long time passes between the approval and the delivery
+                    if rng.chance(1, 6) {
+                        let d = rng.ledger_jump();
+                        if u.advance(d) {
+                            rep.count("advance-ledger-before-delivery");
+                        }
+                    }
                     let delivered = MMessage {
                         source_chain: dchain.clone(),
                         message_id: did.clone(),
@@ -224,6 +231,7 @@ pub fn run(ctx: &Ctx, rep: &mut Report) {
         }
     }
     let mut req: Vec<String> = VARIANTS.iter().map(|v| format!("variant:{}", v)).collect();
+    req.push("advance-ledger-before-delivery".into());
     req.push("app:example".into());
     req.push("app:miniapp".into());
     rep.notes.insert("required".into(), json!(req));
